@@ -635,6 +635,11 @@ S.append(Schema('term_insensitive_nonletter', [Rule('R', Seq(Lit('1y', insensiti
     props=('C01', 'C12'), extract=J(opt(0, 'v.a')),
     note="i'1Y' [a:A] $: the i marker applies to every letter of the literal, wherever it stands"))
 
+# C04 / C01: a closure directly over a character range that contains multi-byte characters, in a @no_skip_ws rule
+S.append(Schema('term_closure_range_utf8', [Rule('R', Seq(Plus(Rng('a', '\u00e9')), Opt(fa()), Eoi()), skip=False, export=True)], 'R', 'A', n=4, alphabet='a\u00e9z',
+    props=('C04', 'C01'), extract=J(opt(0, 'v.a')),
+    note="{'a'..'\u00e9'}+ [a:A] $: the repetition consumes whole characters, whatever their encoded length"))
+
 # ---------------------------------------------------------------------------------------------- differential twins
 # C13 / C05 / C19 are statements of the form "with the feature the parser behaves exactly as without it". They are decided by
 # running the schema and an automatically derived twin (same tree, operands, alphabet, bound; the feature removed) on every
